@@ -383,14 +383,22 @@ func (b *Batch) Build(race bool) error {
 	if race {
 		args = append(args, "-race")
 	}
-	args = append(args, "-o", binDir+"/")
+	hasMain := false
+	for _, it := range b.Items {
+		if it.GenErr == "" && it.HasRun {
+			hasMain = true
+		}
+	}
+	if hasMain {
+		args = append(args, "-o", binDir+"/")
+	}
 	args = append(args, pkgs...)
 	cmd := goCmd(b.Dir, args...)
 	out, _ := cmd.CombinedOutput()
 	logs := splitByItem(string(out))
 	if g, ok := logs[""]; ok && strings.TrimSpace(g) != "" && !strings.Contains(g, "# ") {
 		// toolchain-level failure (not attributable to one package)
-		if !anyBinary(binDir) {
+		if hasMain && !anyBinary(binDir) || strings.Contains(g, "go: ") {
 			return fmt.Errorf("go build failed globally:\n%s", g)
 		}
 	}
